@@ -5,7 +5,7 @@
    atomicity of each call is checked against the real shardManagerImpl by a lock-boundary schedule explorer that
    enumerates every interleaving of the same scenarios and compares the sets of final states. *)
 From Coq Require Import List Arith Bool.
-From S2S Require Import Registry.Model Registry.Explore Registry.Proofs.
+From S2S Require Import Registry.Model Registry.Explore Registry.Proofs Registry.Unbounded.
 Import ListNotations.
 
 (* two incarnations: 0 registered and shutting down, 1 registering, a watermark replay at any point.  In EVERY execution
@@ -114,3 +114,37 @@ Print Assumptions C08_ownership_newest_survives.
 Theorem C08_guarded_replays_never_crash : forall l r, all_guarded l -> crashed r = false -> crashed (run l r) = false.
 Proof. exact guarded_never_crashes. Qed.
 Print Assumptions C08_guarded_replays_never_crash.
+
+(* Receiver side, UNBOUNDED: any operation sequence that respects activeReceiversMu - any number of sender and receiver
+   incarnations, any interleaving of their critical sections.  If incarnation j publishes its acknowledgement channel and
+   registers, and from the publication on every other incarnation only cleans up (incarnations start one after the other:
+   the property's premise), then at the end the acknowledgement channel, the cancel function and the active receiver are
+   j's and the lock is free: no cleanup of any other incarnation, however late or however interleaved with j's own
+   registration, removes or replaces any of them. *)
+Theorem C08_receiver_newest_survives : forall pre mid1 mid2 post j r,
+  valid (pre ++ SetAck j :: mid1 ++ RegRecv1 j :: mid2 ++ RegRecv2 j :: post) r ->
+  Forall (quiet j) mid1 -> Forall (quiet j) mid2 -> Forall (quiet j) post ->
+  let r' := run (pre ++ SetAck j :: mid1 ++ RegRecv1 j :: mid2 ++ RegRecv2 j :: post) r in
+  r_ack r' = Some j /\ r_cancel r' = Some j /\ r_active r' = Some j /\ amu r' = None.
+Proof. exact receiver_newest_survives_unbounded. Qed.
+Print Assumptions C08_receiver_newest_survives.
+
+(* ... for every execution (interleaving) of every set of threads whose linearisation has that shape *)
+Theorem C08_receiver_newest_survives_every_execution : forall ths r l r' pre mid1 mid2 post j,
+  Execution ths r l r' ->
+  l = pre ++ SetAck j :: mid1 ++ RegRecv1 j :: mid2 ++ RegRecv2 j :: post ->
+  Forall (quiet j) mid1 -> Forall (quiet j) mid2 -> Forall (quiet j) post ->
+  r_ack r' = Some j /\ r_cancel r' = Some j /\ r_active r' = Some j /\ amu r' = None.
+Proof. exact receiver_newest_survives_every_execution. Qed.
+Print Assumptions C08_receiver_newest_survives_every_execution.
+
+(* ... and once that newest incarnation ends as well, whatever cleanups of the others are still interleaved with its own,
+   nothing remains registered on the receiver side *)
+Theorem C08_receiver_all_ended_empty : forall j r c1 c2 c3 c4,
+  phC j r ->
+  valid (c1 ++ RemAck j :: c2 ++ UnregRecv1 j :: c3 ++ UnregRecv2 j :: c4) r ->
+  Forall (quiet j) c1 -> Forall (quiet j) c2 -> Forall (quiet j) c3 -> Forall quiet_all c4 ->
+  let r' := run (c1 ++ RemAck j :: c2 ++ UnregRecv1 j :: c3 ++ UnregRecv2 j :: c4) r in
+  r_ack r' = None /\ r_cancel r' = None /\ r_active r' = None /\ amu r' = None.
+Proof. exact receiver_all_ended_empty_unbounded. Qed.
+Print Assumptions C08_receiver_all_ended_empty.
